@@ -45,6 +45,73 @@ const SPIN_LIMIT: u64 = 20_000;
 
 const PEERS: [&str; 2] = ["A", "B"];
 
+// ------------------------------------------------------------------------------------------
+// Watchdog: the only wall-clock judgement of this harness.  A busy loop WITHOUT an await inside
+// `LogSync::run` (the select! else arm is one) never returns from `Future::poll`, so nothing that
+// runs on the session's thread can see it.  A second OS thread declares non-termination when one
+// single `poll` of a session has not returned for WATCHDOG_SECS (a poll does microseconds of work
+// plus at most one SQLite statement), writes the result file with the violation and ends the
+// process.  (The spin after a stream closure is decided without a clock, see `VStream`.)
+// ------------------------------------------------------------------------------------------
+const WATCHDOG_SECS: u64 = 180;
+
+struct Watch {
+    in_poll_since: Option<std::time::Instant>,
+    case: Value,
+    result_path: std::path::PathBuf,
+    trace_path: Option<std::path::PathBuf>,
+    module: String,
+    mode: String,
+}
+
+static WATCH: Mutex<Option<Watch>> = Mutex::new(None);
+
+fn watchdog_start(args: &Args) {
+    *WATCH.lock().unwrap() = Some(Watch {
+        in_poll_since: None,
+        case: Value::Null,
+        result_path: args.result_path(),
+        trace_path: if args.mode == "record" { args.out.clone() } else { None },
+        module: args.module.clone(),
+        mode: args.mode.clone(),
+    });
+    std::thread::spawn(|| loop {
+        std::thread::sleep(std::time::Duration::from_secs(2));
+        let g = WATCH.lock().unwrap();
+        let Some(w) = g.as_ref() else { continue };
+        let Some(t) = w.in_poll_since else { continue };
+        if t.elapsed().as_secs() < WATCHDOG_SECS {
+            continue;
+        }
+        let result = json!({
+            "module": w.module, "mode": w.mode, "evaluations": 1, "distinct_nontrivial": 0,
+            "rule": "aborted by the watchdog", "samples": [], "counters": {}, "trace_events": 0, "trace_runs": 0,
+            "violations_total": 1,
+            "violations": [{"property": "C21", "signature": "spin:session-poll-never-returns",
+                "detail": format!("one poll of LogSync::run has not returned for {WATCHDOG_SECS} s: busy loop without an await"),
+                "case": w.case}],
+        });
+        std::fs::write(&w.result_path, serde_json::to_vec_pretty(&result).unwrap()).ok();
+        if let Some(t) = &w.trace_path {
+            std::fs::write(t, b"").ok();
+        }
+        eprintln!("watchdog: session poll never returned");
+        std::process::exit(0);
+    });
+}
+
+fn watchdog_case(case: &Value) {
+    if let Some(w) = WATCH.lock().unwrap().as_mut() {
+        w.case = case.clone();
+    }
+}
+
+fn watchdog_poll(on: bool) {
+    if let Some(w) = WATCH.lock().unwrap().as_mut() {
+        w.in_poll_since = if on { Some(std::time::Instant::now()) } else { None };
+    }
+}
+
 fn peer_idx(p: &str) -> usize {
     if p == "A" { 0 } else { 1 }
 }
@@ -122,6 +189,19 @@ impl World {
 }
 
 type Content = BTreeMap<(usize, usize), Vec<u32>>;
+
+/// `Outcome` keeps only the first 20 violations: report every failure class (property, signature)
+/// once, so that the recorded deadlock class cannot crowd out anything else; count the rest.
+static SEEN: Mutex<Option<std::collections::BTreeSet<(String, String)>>> = Mutex::new(None);
+
+fn report(out: &mut Outcome, property: &str, signature: &str, detail: String, case: Value) {
+    let mut g = SEEN.lock().unwrap();
+    let seen = g.get_or_insert_with(Default::default);
+    out.count(&format!("violation:{property}:{signature}"));
+    if seen.insert((property.to_string(), signature.to_string())) {
+        out.violation(property, signature, detail, case);
+    }
+}
 
 async fn store_rows(store: &SqliteStore, world: &World, a: usize, l: usize) -> Vec<u32> {
     let r = <SqliteStore as LogStore<Op, VerifyingKey, L, SeqNum, Hash>>::get_log_entries(store, &world.vk(a), &l, None, None)
@@ -214,6 +294,10 @@ impl Sh {
         if self.grant[p] != Grant::Free {
             self.grant[p] = Grant::Nothing;
         }
+        // p moved on: whatever it was found waiting for earlier in this poll is stale
+        self.attempted[p] = None;
+        self.blocked_send[p] = false;
+        self.blocked_recv[p] = false;
     }
 
     fn flushed(&self, p: usize) -> bool {
@@ -568,7 +652,10 @@ impl Run {
                 s.blocked_recv[p] = false;
             }
             let f = fut.as_mut().unwrap();
-            match f.as_mut().poll(cx) {
+            watchdog_poll(true);
+            let polled = f.as_mut().poll(cx);
+            watchdog_poll(false);
+            match polled {
                 Poll::Ready(r) => {
                     *fut = None;
                     *fin = Some(match r {
@@ -800,24 +887,24 @@ fn direct_checks(run: &Run, cfg: &Config, mutated: bool, crashed: bool, out: &mu
     if stuck {
         out.count("deadlocks");
         let sig = deadlock_signature(run);
-        out.violation("C21", &sig, format!("sessions never complete: cap {} ; A waits in {}, B waits in {}",
+        report(out, "C21", &sig, format!("sessions never complete: cap {} ; A waits in {}, B waits in {}",
             cfg.cap, run.blocked_where(0), run.blocked_where(1)), case.clone());
     }
     let sh = run.sh.lock().unwrap();
     for p in 0..2 {
         if sh.spin[p] {
             out.count("spins");
-            out.violation("C21", "spin:sync-loop-after-stream-closure",
+            report(out, "C21", "spin:sync-loop-after-stream-closure",
                 format!("peer {}: the Sync loop polled the closed stream {SPIN_LIMIT} times without awaiting (busy spin, never returns)", PEERS[p]), case.clone());
         }
         if let Some(g) = grammar_violation(&sh.sent[p], run.fin[p] == Some(Fin::Ok)) {
-            out.violation("C20", &format!("c20:{g}"), format!("peer {} wrote {:?}", PEERS[p], sh.sent[p]), case.clone());
+            report(out, "C20", &format!("c20:{g}"), format!("peer {} wrote {:?}", PEERS[p], sh.sent[p]), case.clone());
         }
     }
     if run.fin[0] == Some(Fin::Ok) && run.fin[1] == Some(Fin::Ok) {
         out.count("completed");
         if sh.chan.iter().any(|c| !c.is_empty()) {
-            out.violation("C20", "c20:stray-message-after-end",
+            report(out, "C20", "c20:stray-message-after-end",
                 format!("messages left in the transport after both sessions ended: {} / {}", sh.chan[0].len(), sh.chan[1].len()), case.clone());
         }
         if !mutated && !crashed {
@@ -825,7 +912,7 @@ fn direct_checks(run: &Run, cfg: &Config, mutated: bool, crashed: bool, out: &mu
                 let want = expected_delivery(cfg, p);
                 let got = delivered_by_log(&sh.delivered[p]);
                 if want != got {
-                    out.violation("C19", "c19:delivery-differs", format!("peer {} was given {got:?}, must be given {want:?}", PEERS[p]), case.clone());
+                    report(out, "C19", "c19:delivery-differs", format!("peer {} was given {got:?}, must be given {want:?}", PEERS[p]), case.clone());
                 }
             }
         }
@@ -936,7 +1023,7 @@ async fn replay_one(ctx: &ReplayCtx, beh: &Value, out: &mut Outcome) -> ReplayEn
     let steps = beh["steps"].as_array().cloned().unwrap_or_default();
     macro_rules! mismatch {
         ($sig:expr, $detail:expr) => {{
-            out.violation(prop, $sig, $detail, beh.clone());
+            report(out, prop, $sig, $detail, beh.clone());
             // let the real sessions run on and evaluate the properties on what they did
             run.free_run().await;
             direct_checks(&run, &cfg, mutated, crashed, out, beh);
@@ -1105,6 +1192,7 @@ fn replay(args: &Args) {
         let ctx = ReplayCtx { world, stores: [SqliteStore::temporary().await, SqliteStore::temporary().await], prop };
         for beh in &behs {
             out.eval();
+            watchdog_case(beh);
             match replay_one(&ctx, beh, &mut out).await {
                 ReplayEnd::Done => {
                     out.mark_distinct(beh.to_string());
@@ -1236,7 +1324,8 @@ async fn record_one(
                 let m: Option<(&str, u32)> = if (choice == 0 || (early && choice == 2)) && !rows.is_empty() {
                     // prune below a point, often the whole log
                     let top = *rows.iter().max().unwrap();
-                    let n = if rng.chance(1, 2) { top + 1 } else { rng.range(1, top as u64 + 1) as u32 };
+                    let low = *rows.iter().min().unwrap();
+                    let n = if rng.chance(1, 2) { top + 1 } else { rng.range(low as u64 + 1, top as u64 + 1) as u32 };
                     Some(("prune", n))
                 } else if choice == 1 && !rows.is_empty() {
                     Some(("delete", *rng.pick(&rows)))
@@ -1318,6 +1407,7 @@ fn record(args: &Args) {
         for _ in 0..args.n.max(1) {
             let cfg = random_config(&mut rng, &focus, na, nl, max_h);
             out.eval();
+            watchdog_case(&json!({"cap": cfg.cap, "storeA": store_json(&cfg.content[0]), "storeB": store_json(&cfg.content[1])}));
             let log = record_one(&world, &stores, &cfg, &focus, &mut rng, max_h, &mut out).await;
             for e in log {
                 tw.event(e);
@@ -1330,6 +1420,7 @@ fn record(args: &Args) {
 }
 
 pub fn run(args: &Args) {
+    watchdog_start(args);
     match args.mode.as_str() {
         "replay" => replay(args),
         "record" => record(args),
